@@ -56,10 +56,22 @@ func snapFields(fs errdef.Fields) string {
 	return b.String()
 }
 
+//go:noinline
+func probeAtDepth(d errdef.Definition, n int) errdef.Error {
+	if n > 0 {
+		return probeAtDepth(d, n-1)
+	}
+	return d.New("probe").(errdef.Error)
+}
+
 func snapDef(f errdef.Factory) string {
 	d := f.(errdef.Definition)
-	// stack options are observable through a probe error only; creating it writes nothing shared
-	probe := d.New("probe").(errdef.Error)
+	// stack options are observable through a probe error only; creating it writes nothing shared.
+	// The probe is made on a goroutine of its own, below a fixed chain of calls: the number of frames
+	// left after StackSkip must not depend on how deep the caller of snapDef happens to be.
+	ch := make(chan errdef.Error, 1)
+	go func() { ch <- probeAtDepth(d, 8) }()
+	probe := <-ch
 	return fmt.Sprintf("kind=%q err=%q fields=%s probeStackLen(min 3)=%d", d.Kind(), d.Error(), snapFields(d.Fields()), min(3, probe.Stack().Len()))
 }
 
